@@ -22,7 +22,17 @@ func VerifLifecycleExpiry(c Controller, k *btcec.PublicKey) (uint32, bool) {
 	var key [33]byte
 	copy(key[:], k.SerializeCompressed())
 	e, ok := w.expirations[key]
-	return e, ok
+	if !ok {
+		return 0, false
+	}
+	// tracked means: NewBlock(e) will hand the account to the expiry handler, i.e.
+	// the account is (still) in the per-height request list of that height
+	for _, tk := range w.expirationsPerHeight[e] {
+		if tk != nil && tk.IsEqual(k) {
+			return e, true
+		}
+	}
+	return e, false
 }
 
 // VerifLifecycleHasCancel reports whether the controller holds a cancel handle
